@@ -79,8 +79,10 @@ class C14(Prop):
         for j in range(r.randint(1, 2)):
             h = workload.clone(case)
             h["history"] = []
-            what = r.choice(["lambda", "biased", "beta", "lambda"])
-            if what == "lambda":
+            what = r.choice(["lambda", "biased", "beta", "lambda", "floor"])
+            if what == "floor":
+                h["args"]["min_meaningful_covariance"] = dict(form="float", value=r.choice([1e-3, 0.05, 0.2]))
+            elif what == "lambda":
                 h["args"]["sparsity_weight"] = dict(form="float", value=r.choice([0.02, 0.6, 3.0]), seed=0)
             elif what == "biased":
                 h["args"]["biased_covariance"] = not h["args"]["biased_covariance"]
